@@ -2,6 +2,7 @@ From AQ Require Import lib.Base gen.C13Consts model.Builder model.Amplification
   proofs.BuilderProofs proofs.BuilderPadding proofs.BuilderPadding2 proofs.AmplificationProofs.
 From AQ Require gen.C13Writers model.Writers proofs.BuilderFlight proofs.WritersBase proofs.WritersFrames proofs.WritersProofs
   proofs.WritersCorollaries proofs.WritersFlight proofs.FlightBudget model.RecBase model.Recovery proofs.RecoveryProofs.
+From AQ Require gen.C05Paths model.ConnPaths proofs.TlsSitesP proofs.ConnPathsP.
 
 (* every flushed datagram <= max_datagram_size: all configurations, all op sequences (API misuse included) *)
 Theorem datagram_le_max :
@@ -141,3 +142,12 @@ Theorem flight_budget_connection :
     <= RecBase.cc_bif cc (Recovery.r_cc st) + Z.max 0 mf.
 Proof. exact WritersFlight.flight_budget_conn. Qed.
 Print Assumptions flight_budget_connection.
+
+(* the 3x budget is switched off by `network_path.is_validated`: the statements of connection.py that write that flag (and the
+   network-path table they index) are exactly the listings the path ledger model was written against -- receive_datagram under
+   `epoch == HANDSHAKE`, the PATH_RESPONSE handler, the client's first path.  Generated from the current source
+   (tools/gen/c05_paths.py); another place or another guard that validates a path stops this theorem. *)
+Theorem validation_sites_pinned :
+  AQ.proofs.TlsSitesP.sites_eqb AQ.gen.C05Paths.paths_sites AQ.model.ConnPaths.paths_sites_expected = true.
+Proof. exact AQ.proofs.ConnPathsP.paths_sites_known. Qed.
+Print Assumptions validation_sites_pinned.
